@@ -1,5 +1,6 @@
 import AranyaV.Proofs.BraidRef
 import AranyaV.Proofs.BraidResult
+import AranyaV.Proofs.ConvMap
 /-!
 # C02 — Every command is applied once, after its ancestors; merges are never evaluated
 
@@ -21,6 +22,18 @@ Mechanism side (`Braid.BraidResult`, model of `braiding.rs::BraidResult/BraidIte
 * `BraidResult.iter_rev` — for every block size `B ≥ 1` (in particular the generated
   `BRAID_BLOCK_ENTRIES`) iteration yields exactly the reverse of the push sequence, however many
   blocks were spilled.
+
+Mechanism side (`ConvMap`, model of the block store of `convergence_map.rs`: in-memory blocks, LRU
+spill to a root index + file, reload on lookup — **with the repaired disk scan**, see notes/C02.md):
+* `convMap_lookup_unaffected_by_spill` — for every well-formed map (unique keys, entries inside the
+  recorded range of their block), any number of blocks in memory and on disk and any capacity:
+  `should_continue` terminates (structural recursion over the root index) and behaves like the
+  abstract map — absent key → `true`, nothing changes; count `> 1` → `false`, count decremented; count
+  `≤ 1` → `true`, entry removed — and the result map is well-formed again, whatever was evicted or
+  reloaded on the way;
+* `convMap_old_scan_cycles` — the scan as it was before the repair never terminates (for every fuel)
+  on a concrete map with four blocks overlapping the queried max cut: the state repeats with period
+  4; the repaired scan answers at once.
 -/
 namespace AranyaV.Spec
 open AranyaV.Gen
@@ -183,3 +196,78 @@ example : pushAll 2 BraidResult.new [1, 2, 3, 4, 5] = some { mem := [5], disk :=
     (iterOf { mem := [5], disk := [1, 2, 3, 4] }).collect 2 6 = some [5, 4, 3, 2, 1] := by decide
 
 end AranyaV.Braid
+
+namespace AranyaV.ConvMap
+open AranyaV.Gen
+
+/-- **Lookup/consume of the convergence map is unaffected by spilling** (repaired disk scan; for
+every root capacity, in particular the generated `ROOT_CAPACITY`). -/
+theorem convMap_lookup_unaffected_by_spill {cap key mc : Nat} {m m' : CMap} {r : Bool} (hok : Ok m)
+    (hmc : ∀ e ∈ content m, e.key = key → e.mc = mc)
+    (h : shouldContinue cap m key mc = .ok (m', r)) :
+    Ok m' ∧ Behaves (content m) key (content m') r :=
+  shouldContinue_spec hok hmc h
+
+/-- four blocks (three in memory, one spilled) that all hold entries with max cut 5; the key 99
+(max cut 5) has no entry -/
+def exBlk (ks : List Nat) (last : Nat) : Block :=
+  { lo := 5, hi := 5, entries := ks.map (fun k => { key := k, mc := 5, count := 2 }), last := last }
+
+def exMap : CMap :=
+  { mem := [exBlk [1, 2] 1, exBlk [3, 4] 2, exBlk [5, 6] 3], root := [exBlk [7, 8] 0], active := 0, counter := 3 }
+
+theorem exMap_ok : Ok exMap :=
+  ⟨by decide, by decide, by decide, by decide⟩
+
+/-- one iteration of the old scan at root index 0 (the block there is in range, the key is absent) -/
+def fwdStep (m : CMap) : CMap :=
+  match loadBlock convRootCapacity m 0 with
+  | .ok (m', _) => m'
+  | .error _ => m
+
+/-- the map after three iterations of the old scan; from here on the scan has period 4 -/
+def exMap3 : CMap := fwdStep (fwdStep (fwdStep exMap))
+
+theorem fwd_prefix (n : Nat) :
+    scanFwd convRootCapacity 99 5 (n + 3) 0 exMap = scanFwd convRootCapacity 99 5 n 0 exMap3 := by rfl
+
+theorem fwd_cycle (n : Nat) :
+    scanFwd convRootCapacity 99 5 (n + 4) 0 exMap3 = scanFwd convRootCapacity 99 5 n 0 exMap3 := by rfl
+
+theorem fwd_never3 : ∀ n, scanFwd convRootCapacity 99 5 n 0 exMap3 = .ok none := by
+  intro n
+  induction n using Nat.strongRecOn with
+  | _ n ih =>
+    match n with
+    | 0 => rfl
+    | 1 => rfl
+    | 2 => rfl
+    | 3 => rfl
+    | k + 4 => rw [fwd_cycle]; exact ih k (by omega)
+
+/-- **The scan as it was before the repair never terminates** on `exMap` for the absent key 99 (for
+every amount of fuel the answer is "still scanning"), while the repaired scan answers `true` at
+once and finds the present key 7 on disk (`false`: its count 2 is decremented). -/
+theorem convMap_old_scan_cycles :
+    (∀ fuel, scanFwd convRootCapacity 99 5 fuel 0 exMap = .ok none) ∧
+    (shouldContinue convRootCapacity exMap 99 5).toOption.map (·.2) = some true ∧
+    (shouldContinue convRootCapacity exMap 7 5).toOption.map (·.2) = some false := by
+  refine ⟨?_, by rfl, by rfl⟩
+  intro fuel
+  match fuel with
+  | 0 => rfl
+  | 1 => rfl
+  | 2 => rfl
+  | k + 3 => rw [fwd_prefix]; exact fwd_never3 k
+
+example : ∃ m' r, shouldContinue convRootCapacity exMap 7 5 = .ok (m', r) ∧ Ok m' ∧
+    Behaves (content exMap) 7 (content m') r := by
+  cases h : shouldContinue convRootCapacity exMap 7 5 with
+  | error e =>
+    have h2 : (shouldContinue convRootCapacity exMap 7 5).toOption.map (·.2) = some false := by rfl
+    rw [h] at h2; cases h2
+  | ok p =>
+    obtain ⟨m', r⟩ := p
+    exact ⟨m', r, rfl, convMap_lookup_unaffected_by_spill exMap_ok (by decide) h⟩
+
+end AranyaV.ConvMap
